@@ -23,8 +23,9 @@ import contextlib
 import logging
 import types as _types
 from collections.abc import Callable, Iterable
+from http import HTTPStatus
 from io import BytesIO, IOBase
-from typing import Any, NoReturn
+from typing import Any
 
 import falcon
 import pyarrow as pa
@@ -61,10 +62,25 @@ from .._common import (
     decompress as _decompress_with_encoding,
 )
 from .._unauthorized import AuthUnavailableError, classify_auth_failure
+from ._responses import _set_error_response
 
 _logger = logging.getLogger("vgi_rpc.http")
 
 _REQUEST_ID_HEADER = "X-Request-ID"
+
+
+def _reject_request(resp: falcon.Response, exc: BaseException, status_code: HTTPStatus) -> None:
+    """Refuse a request from ``process_request`` with an Arrow IPC error body.
+
+    WIRE_PROTOCOL section 13: a 400 or 413 body is still a valid Arrow IPC stream
+    carrying an error batch, so an Arrow client raises a typed ``RpcError``
+    instead of tripping over Falcon's default JSON page.  ``resp.complete``
+    makes Falcon skip the remaining ``process_request`` hooks, routing and the
+    responder (the same short-circuit ``_StickyMiddleware`` uses); every
+    ``process_response`` hook still runs.
+    """
+    _set_error_response(resp, exc, status_code=status_code)
+    resp.complete = True
 
 
 class _TransportNotifyMiddleware:
@@ -115,22 +131,25 @@ class _MaxRequestBytesMiddleware:
                 return
         cl = req.content_length
         if cl is not None and cl > self._max_bytes:
-            self._raise_too_large(cl)
+            self._reject_too_large(resp, cl)
+            return
         if cl is None:
             body = req.bounded_stream.read(self._max_bytes + 1)
             if len(body) > self._max_bytes:
-                self._raise_too_large(len(body))
+                self._reject_too_large(resp, len(body))
+                return
             req.context.capped_request_body = body
 
-    def _raise_too_large(self, size: int) -> NoReturn:
-        """Raise Falcon's standardized 413 response."""
-        raise falcon.HTTPContentTooLarge(
-            title="Request body exceeds max_request_bytes",
-            description=(
-                f"Request body of at least {size} bytes exceeds the server's advertised "
-                f"max_request_bytes={self._max_bytes}.  Use the upload-URL "
+    def _reject_too_large(self, resp: falcon.Response, size: int) -> None:
+        """Answer 413 with an Arrow IPC error body and skip dispatch."""
+        _reject_request(
+            resp,
+            ValueError(
+                f"Request body exceeds max_request_bytes: a body of at least {size} bytes exceeds the "
+                f"server's advertised max_request_bytes={self._max_bytes}.  Use the upload-URL "
                 f"flow (__upload_url__/init) to externalize large inputs."
             ),
+            HTTPStatus.REQUEST_ENTITY_TOO_LARGE,
         )
 
 
@@ -557,19 +576,22 @@ class _CompressionMiddleware:
             # access log is specified to carry. Capturing it costs nothing
             # and is exactly what the client sent.
             _current_request_batch.set(decompressed)
-        except DecompressionLimitExceeded as exc:
-            raise falcon.HTTPContentTooLarge(
-                title="Request body exceeds max_request_bytes after decompression",
-                description=(
-                    f"Decompressed {req_enc.value} request body exceeds the server's advertised "
+        except DecompressionLimitExceeded:
+            _reject_request(
+                resp,
+                ValueError(
+                    f"Request body exceeds max_request_bytes after decompression: the decompressed "
+                    f"{req_enc.value} request body exceeds the server's advertised "
                     f"max_request_bytes={self._max_decompressed_bytes}."
                 ),
-            ) from exc
+                HTTPStatus.REQUEST_ENTITY_TOO_LARGE,
+            )
         except Exception as exc:
-            raise falcon.HTTPBadRequest(
-                title="Decompression Error",
-                description=f"Failed to decompress {req_enc.value} request body: {exc}",
-            ) from exc
+            _reject_request(
+                resp,
+                ValueError(f"Decompression Error: failed to decompress {req_enc.value} request body: {exc}"),
+                HTTPStatus.BAD_REQUEST,
+            )
 
     def process_response(
         self,
